@@ -1,6 +1,7 @@
 package main
 
 import (
+	"bytes"
 	"strings"
 
 	"github.com/gcash/bchd/chaincfg"
@@ -114,10 +115,23 @@ func execHD(c Case) string {
 		return obs
 	case "xkey":
 		return xkeyObs(hdkeychain.NewKeyFromString(string(unhx(a[0]))))
+	case "seedgen": // seedgen <length>: GenerateSeed refuses lengths outside 16..64 and returns exactly that many bytes
+		sd, err := hdkeychain.GenerateSeed(uint8(atoi(a[0])))
+		if err == hdkeychain.ErrInvalidSeedLen {
+			return "err:seedlen"
+		} else if err != nil {
+			return "err:other"
+		}
+		sd2, _ := hdkeychain.GenerateSeed(uint8(atoi(a[0])))
+		return "ok:" + itoa(len(sd)) + ":" + b2s(!bytes.Equal(sd, sd2))
 	case "xnew": // xnew <version> <key> <chaincode> <parentFP> <depth> <childnum> <private>: the raw constructor
 		k := hdkeychain.NewExtendedKey(unhx(a[0]), unhx(a[1]), unhx(a[2]), unhx(a[3]), uint8(atoi(a[4])), uint32(atou(a[5])), a[6] == "1")
 		str := k.String()
-		return hs(str) + " " + b2s(k.IsPrivate()) + " " + itoa(int(k.Depth())) + " " + u64s(uint64(k.ParentFingerprint())) + " " + xkeyObs(hdkeychain.NewKeyFromString(str))
+		nb := ""
+		for _, n := range nets {
+			nb += b2s(k.IsForNet(n))
+		}
+		return hs(str) + " " + nb + " " + b2s(k.IsPrivate()) + " " + itoa(int(k.Depth())) + " " + u64s(uint64(k.ParentFingerprint())) + " " + xkeyObs(hdkeychain.NewKeyFromString(str))
 	case "xrt": // derive, serialise, parse back
 		k, obs := hdWalk(netIdx(a[0]), unhx(a[1]), splitOr(a[2], ","))
 		if k == nil {
@@ -262,6 +276,9 @@ func genC05(r *Rng, tier string, emit func(Case)) {
 	reck := func(p []byte) string {
 		ck := chainhash.DoubleHashB(p)[:4]
 		return base58.Encode(append(append([]byte{}, p...), ck...))
+	}
+	for _, l := range []int{0, 1, 15, 16, 17, 32, 63, 64, 65, 128, 255} {
+		e("seedgen", "len", itoa(l))
 	}
 	// the raw constructor NewExtendedKey: private scalars given WITHOUT their leading zero bytes (31, 30, 1 bytes; String
 	// must left-pad them to 32), full-length scalars, compressed public keys; registered and unregistered versions
